@@ -111,6 +111,8 @@ def validate_traces(module, cfg, traces, batch_lines=20000, jvms=6, workers_per_
     verdicts: {tid: {"lines": n, "bad": k, "rejects": [(line, clause)...]}} ; a trace without a DONE verdict is a
     machinery failure (TLCError).
     """
+    if not traces:
+        return {}, {"batches": 0, "tlc_states": 0, "tlc_wall_s": 0}
     batches, curb, n = [], [], 0
     for t in traces:
         curb.append(t)
